@@ -145,6 +145,10 @@ class FakeSocket:
             if isinstance(f, tuple) and f[0] == "partial":
                 self.send_fault = None
                 data = data[: max(1, min(f[1], len(data)))]
+            elif isinstance(f, tuple) and f[0] == "rate":
+                # a peer that reads slowly: the kernel takes at most f[1] bytes per send() call (persistent), so queued data drains in small
+                # pieces over many loop iterations and the transport's buffer is usually non-empty when it falls below its low-water mark
+                data = data[: max(1, min(f[1], len(data)))]
             elif callable(f):
                 r = f(self, data)
                 if isinstance(r, int):
